@@ -244,6 +244,8 @@ def model_check(ctx, pid):
 GEN2 = {   # additional generator configurations (same MaxLen)
     "C11": [{"TagNames": '{"tag/a", "tag/b", "service/c"}', "ConvNames": "{}", "MaxCalls": 12, "MaxViews": 0, "Menu": '"subs"', "Invalid": "TRUE"}],
     "C06": [{"TagNames": '{"tag/a", "tag/b", "mark/m"}', "ConvNames": "{}", "MaxCalls": 7, "MaxViews": 1, "Menu": '"subs"', "Invalid": "FALSE"}],
+    "C09": [{"TagNames": '{"tag/a", "mark/m"}', "ConvNames": '{"cv"}', "MaxCalls": 8, "MaxViews": 1, "Menu": '"conv"', "Invalid": "FALSE"}],
+    "C13": [{"TagNames": '{"tag/a", "mark/m"}', "ConvNames": '{"cv"}', "MaxCalls": 8, "MaxViews": 2, "Menu": '"conv"', "Invalid": "FALSE"}],
 }
 
 
@@ -254,14 +256,17 @@ def run(ctx):
     nseeds, per = (6, 10) if ctx.quick() else (16, 60)
     if os.environ.get("VERIF_ONLY_REGRESS") == "1":   # ad-hoc debugging only
         nseeds = 0
-    hists = []
+    scheds = []
     cfgs = [consts] + GEN2.get(pid, [])
+    all_convs = set()
     for ci, c in enumerate(cfgs):
         ns = max(2, nseeds // len(cfgs)) if ci else nseeds - (len(cfgs) - 1) * max(2, nseeds // len(cfgs)) if len(cfgs) > 1 else nseeds
+        convs = ["cv"] if '"cv"' in c["ConvNames"] else []
+        all_convs |= set(convs)
         if nseeds:
-            hists += generate(ctx, c, maxlen, per, maxlen + 5, [ctx.seed * 1000 + 100 * ci + i for i in range(ns)])
-    convs = CONVS.get(pid, [])
-    scheds = [to_schedule("g%d" % i, h, convs=convs) for i, h in enumerate(hists)]
+            hs = generate(ctx, c, maxlen, per, maxlen + 5, [ctx.seed * 1000 + 100 * ci + i for i in range(ns)])
+            scheds += [to_schedule("g%d_%d" % (ci, i), h, convs=convs) for i, h in enumerate(hs)]
+    convs = sorted(all_convs | set(CONVS.get(pid, [])))
     scheds = load_regress([pid]) + scheds
     rows, crashes, outs = run_schedules(ctx, scheds, tag=pid)
     return evaluate(ctx, pid, scheds, rows, crashes, states, trans, mc_notes, convs=convs)
